@@ -168,6 +168,7 @@ let run_case oc (c : case) =
             | TrDanglingParent -> "dangling_symlink_parent"
             | TrRelativeName -> "relative_name"
             | TrHiddenViaLink -> "hidden_reached_via_symlink"
+            | TrForceNewParent -> "forcebackup_below_new_directory"
             | TrRemovesRoot -> "removes_view_root"))
             (triggers cfg o !w);
           let before = List.length (dump_trace !w) in
